@@ -62,6 +62,8 @@ func c14(c *Ctx) {
 	r.Rule("R14.4", "substrate identity: Substrate() returns a load of receiver field F; every allocation of the type stores into F a parameter of the allocating function; along every static call chain up to the dispatcher that argument is again the caller's own substrate parameter")
 
 	c.checkDispatchTotality()
+	// R14.7: a rejected node is refused — no error test on the way is inverted (shared with C12's R12.7)
+	c.checkNoInvertedErrorTest("R14.7")
 	if ok, why := newDischarger(c).fanoutCheckedPositive(); ok {
 		r.OK("R14.6", "hamt/fanout-validated", "-", "the shard constructor's validator rejects every fanout that is not a positive power of two")
 	} else {
